@@ -83,6 +83,10 @@ func checkC17(c BoundaryCase, o *Obs) error {
 	}
 	var curTr *xport.ScriptConn
 	judge := func(conn *websocket.Conn, k int, path string) error {
+		// the application sets no read deadline: the peer may take its time over
+		// whatever follows the handshake, and no deadline of the handshake phase
+		// (or of a reply the library writes) may cut a read short
+		curTr.SlowPeer = true
 		switch c.After {
 		case "write_dead":
 			curTr.SetWriteFault(&xport.WriteFault{K: 0, Kind: xport.FaultError})
@@ -111,6 +115,9 @@ func checkC17(c BoundaryCase, o *Obs) error {
 		n, err := compareRead(model.Msgs, rt, c.Reads)
 		if err != nil {
 			return fmt.Errorf("split %d (%s): %v", k, path, err)
+		}
+		if curTr.RDLExpired > 0 {
+			return fmt.Errorf("split %d (%s): a read deadline was still armed (or was armed by the library) after the handshake although the application set none: with a peer that pauses, the read times out (%d of %d messages delivered, reader stopped with %v)", k, path, n, len(model.Msgs), rt.Final)
 		}
 		if n != len(model.Msgs) {
 			return fmt.Errorf("split %d (%s): only %d of %d messages glued to the handshake were delivered; reader stopped with %v", k, path, n, len(model.Msgs), rt.Final)
